@@ -3,8 +3,11 @@
 package main
 
 import (
+	"encoding/json"
+	"fmt"
 	"reflect"
 	"sort"
+	"strings"
 
 	"github.com/moov-io/wire"
 )
@@ -166,6 +169,19 @@ func init() {
 					rec(m)
 				}
 			}
+			// C19, routes: the same amount supplied through the struct and through JSON (File and bare message documents):
+			// the verdicts agree, the decoded message holds the supplied characters, an accepted amount is 1..12 ASCII
+			// digits written zero-filled to twelve, and an all-zero amount is accepted only with subtype 90
+			if _, has := base.Tags["Amount"]; has && base.Validate() == "ok" {
+				for _, amt := range amountFamily(rng, thorough) {
+					for _, st := range []string{"00", "90"} {
+						m := base.Clone()
+						m.setElem("Amount", "Amount", amt)
+						m.setElem("TypeSubType", "SubTypeCode", st)
+						o.Case("prop:amount-routes", amountRoutes(base, m, amt, st), sn, amt, st)
+					}
+				}
+			}
 			// every present tag made invalid by a forbidden character in its first element / wrong marker
 			for _, name := range sortedKeys(base.Tags) {
 				tt := tagByName[name]
@@ -220,4 +236,115 @@ func init() {
 			}
 		}
 	}
+}
+
+// amountFamily: all-zero amounts of every length 1..20, digit strings of lengths 0..20 (several shapes at the
+// boundary lengths 11..14), and one non-digit substituted at every position of 12- and 13-character amounts.
+func amountFamily(rng *Rng, thorough bool) []string {
+	var out []string
+	for n := 1; n <= 20; n++ {
+		out = append(out, strings.Repeat("0", n))
+	}
+	for n := 0; n <= 20; n++ {
+		out = append(out, strings.Repeat("9", n))
+		if n > 0 {
+			out = append(out, "1"+strings.Repeat("0", n-1), strings.Repeat("0", n-1)+"1")
+		}
+		if n >= 11 && n <= 14 {
+			out = append(out, "1234567890123456"[:n], "0"+"1234567890123456"[:n-1], "10"+strings.Repeat("0", n-3)+"5")
+		}
+	}
+	subs := []string{" ", "-", "+", ".", ",", "x", "e", "\x00", "\xc2\xa0", "\xef\xbc\x91", "\xd9\xa1", "\"", "\\"}
+	for _, n := range []int{12, 13} {
+		for pos := 0; pos < n; pos++ {
+			for si, sub := range subs {
+				if !thorough && (pos+si)%4 != int(rng.Intn(4)) {
+					continue
+				}
+				d := "123456789012345"[:n]
+				out = append(out, d[:pos]+sub+d[pos+1:])
+			}
+		}
+	}
+	return out
+}
+
+func allDigits(s string) bool {
+	for i := 0; i < len(s); i++ {
+		if s[i] < '0' || s[i] > '9' {
+			return false
+		}
+	}
+	return true
+}
+
+// amountRoutes returns "same" when the struct and JSON routes treat the supplied amount alike and as C19 demands.
+func amountRoutes(base, m *Msg, amt, st string) string {
+	structV := m.Validate()
+	// JSON documents carrying exactly the supplied characters: built from the base message with a marker amount
+	const mark = "777777777777"
+	b := base.Clone()
+	b.setElem("Amount", "Amount", mark)
+	b.setElem("TypeSubType", "SubTypeCode", st)
+	q, _ := json.Marshal(strings.ToValidUTF8(amt, "\uFFFD"))
+	utf8ok := strings.ToValidUTF8(amt, "\uFFFD") == amt
+	doc := fileJSON("amt", b)
+	if strings.Count(doc, `"`+mark+`"`) != 1 {
+		return "same" // the marker is not unique in this sample: nothing decided
+	}
+	doc = strings.Replace(doc, `"`+mark+`"`, string(q), 1)
+	var f *wire.File
+	var err error
+	if pn, _ := protect(func() { f, err = wire.FileFromJSON([]byte(doc)) }); pn {
+		return "differ:FileFromJSON panicked"
+	}
+	if err != nil || f == nil {
+		return fmt.Sprintf("differ:FileFromJSON refused a document whose only change is the amount string: %v", err)
+	}
+	if f.FEDWireMessage.Amount == nil {
+		return "differ:the decoded message has no {2000}"
+	}
+	held := f.FEDWireMessage.Amount.Amount
+	if utf8ok && held != amt {
+		return fmt.Sprintf("differ:JSON supplied the amount %q, the decoded message holds %q", amt, held)
+	}
+	var jsonV string
+	if pn, _ := protect(func() { jsonV = verdictString(f.Validate()) }); pn {
+		return "differ:Validate panicked on the decoded file"
+	}
+	if utf8ok && (jsonV == "ok") != (structV == "ok") {
+		return fmt.Sprintf("differ:amount %q subtype %s: struct route %s, JSON route %s", amt, st, structV, jsonV)
+	}
+	for route, v := range map[string]string{"struct": structV, "JSON": jsonV} {
+		if v != "ok" {
+			continue
+		}
+		if route == "JSON" && !utf8ok {
+			continue
+		}
+		if len(amt) < 1 || len(amt) > 12 || !allDigits(amt) {
+			return fmt.Sprintf("differ:%s route accepted the amount %q, which is not 1..12 digits", route, amt)
+		}
+		if strings.Trim(amt, "0") == "" && st != "90" {
+			return fmt.Sprintf("differ:%s route accepted the all-zero amount %q with subtype %s", route, amt, st)
+		}
+	}
+	// what an accepted message writes: the supplied digits, zero-filled to twelve
+	if jsonV == "ok" && utf8ok {
+		for _, variable := range []bool{false, true} {
+			var sb strings.Builder
+			var werr error
+			if pn, _ := protect(func() { werr = wire.NewWriter(&sb, wire.VariableLengthFields(variable)).Write(f) }); pn {
+				return "differ:Write panicked on the decoded file"
+			}
+			if werr != nil {
+				return fmt.Sprintf("differ:the decoded file validates but is not written: %v", werr)
+			}
+			want := "{2000}" + strings.Repeat("0", 12-len(amt)) + amt
+			if !strings.Contains(sb.String(), want) {
+				return fmt.Sprintf("differ:amount %q accepted through JSON is not written as %s", amt, want)
+			}
+		}
+	}
+	return "same"
 }
